@@ -443,12 +443,14 @@ Proof.
 Qed.
 
 (* ---- a sequence of logical calls, each with its own capacity schedule ---- *)
-Fixpoint drive_seq (s : st) (calls : list (opk * N)) (capss : list (list N)) (acc : list N)
+(* a logical call = (operation, number of input bytes, metadata payload); the payload is only
+   looked at by OpMeta *)
+Fixpoint drive_seq (s : st) (calls : list (opk * N * list N)) (capss : list (list N)) (acc : list N)
   : option (list N * st) :=
   match calls, capss with
   | [], _ => Some (acc, s)
-  | (op, chunk) :: more, caps :: capss' =>
-    match drive_q s op [] chunk caps acc with
+  | (op, chunk, payload) :: more, caps :: capss' =>
+    match drive_q s op payload chunk caps acc with
     | Some (acc', s') => drive_seq s' more capss' acc'
     | None => None
     end
@@ -458,17 +460,17 @@ Fixpoint drive_seq (s : st) (calls : list (opk * N)) (capss : list (list N)) (ac
 
 Theorem out_slicing_seq : forall calls s capss capss' acc out out' s1 s2,
   initialized s = true -> inv s -> all_ok2 (oracle s) -> fastcond s = false ->
-  Forall (fun c => fst c <> OpMeta) calls ->
+  Forall (fun c => fst (fst c) <> OpMeta) calls ->
   drive_seq s calls capss acc = Some (out, s1) ->
   drive_seq s calls capss' acc = Some (out', s2) ->
   out = out' /\ s1 = s2.
 Proof.
-  induction calls as [|[op chunk] more IH]; intros s capss capss' acc out out' s1 s2 Hini Hi Hok Hfc Hops D1 D2.
+  induction calls as [|[[op chunk] payload] more IH]; intros s capss capss' acc out out' s1 s2 Hini Hi Hok Hfc Hops D1 D2.
   - cbn [drive_seq] in D1, D2. inversion D1; inversion D2; subst. split; reflexivity.
   - cbn [drive_seq] in D1, D2.
     destruct capss as [|caps capss]; [discriminate|]. destruct capss' as [|caps' capss']; [discriminate|].
-    destruct (drive_q s op [] chunk caps acc) as [[a1 t1]|] eqn:E1; [|discriminate].
-    destruct (drive_q s op [] chunk caps' acc) as [[a2 t2]|] eqn:E2; [|discriminate].
+    destruct (drive_q s op payload chunk caps acc) as [[a1 t1]|] eqn:E1; [|discriminate].
+    destruct (drive_q s op payload chunk caps' acc) as [[a2 t2]|] eqn:E2; [|discriminate].
     inversion Hops as [|? ? Hop Hrest]; subst. cbn [fst] in Hop.
     destruct (out_slicing_call _ _ _ _ _ _ _ _ _ _ _ Hini Hi Hok Hfc Hop E1 E2) as [Ea Et]. subst a2 t2.
     assert (Hr : ready s) by (split; [|split]; assumption).
